@@ -328,6 +328,40 @@ def run(ck):
                     undecided += 1
     ck.count('undecided by the differential (skipped)', undecided)
 
+    # ---------------------------------------------------------------- true results outside MPFR's own exponent range
+    # |f(x)| is non-zero but below 2^emin_min (or above 2^emax_max): MPFR itself under/overflows and the wrapper substitutes a
+    # stand-in.  Under a context with a bounded quantum / range every value that small (large) with the same sign rounds
+    # alike, so the expectation is ctx.round(sign * 2^-+100000); sign of the result, sign of a zero and the inexact flag count.
+    E62 = 2 ** 62
+    far = [('pow', (Fraction(-1, 2), Fraction(E62 + 1)), -1, 'tiny'), ('pow', (Fraction(1, 2), Fraction(E62)), 1, 'tiny'),
+           ('pow', (Fraction(-3, 2 ** 20), Fraction(2 ** 60 + 1)), -1, 'tiny'), ('pow', (Fraction(-3, 2 ** 20), Fraction(2 ** 60 + 2)), 1, 'tiny'),
+           ('exp', (Fraction(-2 ** 63),), 1, 'tiny'), ('exp2', (Fraction(-E62 - 5),), 1, 'tiny'), ('exp10', (Fraction(-E62),), 1, 'tiny'),
+           ('erfc', (Fraction(2 ** 32),), 1, 'tiny'), ('pow', (Fraction(-2), Fraction(E62 + 1)), -1, 'huge'),
+           ('pow', (Fraction(-2), Fraction(E62 + 2)), 1, 'huge'), ('exp', (Fraction(2 ** 63),), 1, 'huge'),
+           ('sinh', (Fraction(-2 ** 63),), -1, 'huge'), ('cosh', (Fraction(-2 ** 63),), 1, 'huge'), ('expm1', (Fraction(2 ** 63),), 1, 'huge')]
+    far_ctx = [{'kind': 'efloat', 'es': 11, 'nbits': 64, 'enable_inf': True, 'nk': 'IEEE_754', 'eoffset': 0, 'rm': rm, 'ov': 'OVERFLOW'} for rm in RM] + \
+              [{'kind': 'mpsfloat', 'p': 8, 'emin': -4, 'rm': rm} for rm in ('RNE', 'RTP', 'RTN', 'RAZ', 'RTO')] + \
+              [{'kind': 'mpfixed', 'nmin': -12, 'rm': rm} for rm in RM] + \
+              [{'kind': 'efloat', 'es': 5, 'nbits': 16, 'enable_inf': True, 'nk': 'IEEE_754', 'eoffset': 0, 'rm': rm, 'ov': 'OVERFLOW'} for rm in ('RNE', 'RTZ', 'RAZ', 'RTN')]
+    for fname, args, sgn, kind in far:
+        standin = sgn * (Fraction(1, 2 ** 100000) if kind == 'tiny' else Fraction(2 ** 100000))
+        for d in far_ctx:
+            if kind == 'huge' and d['kind'] in ('mpsfloat', 'mpfixed'):
+                continue                                   # no upper bound: the true result is out of reach of any stand-in
+            ctx = mk_ctx(d)
+            got = attempt(lambda: getattr(ops, fname)(*[Float.from_rational(a) for a in args], ctx=ctx))
+            want = attempt(lambda: ctx.round(standin))
+            ck.evaluations += 1
+            ck.count('beyond-MPFR-range')
+            ck.nontriv(('far', fname, str(args), str(d)))
+            if isinstance(want, BaseException):
+                continue
+            if (isinstance(got, BaseException) or got.isnan != want.isnan or got.isinf != want.isinf or got.s != want.s
+                    or (not got.is_nar() and got.as_rational() != want.as_rational()) or not got.inexact):
+                ck.violation(f'{fname}: a true result outside MPFR\'s exponent range is not rounded like the true value (value, sign or inexact flag)',
+                             {'fn': fname, 'args': [str(a) for a in args], 'ctx': d, 'true result': f'{"-" if sgn < 0 else "+"}{kind}',
+                              'got': repr(got), 'expected': repr(want)})
+
     # ---------------------------------------------------------------- exact results are exact and unflagged
     exact = [('exp', (0,), 1), ('log', (1,), 0), ('pow', (2, 10), 1024), ('sqrt', (4,), 2), ('sin', (0,), 0), ('cos', (0,), 1),
              ('atan', (0,), 0), ('exp2', (3,), 8), ('log2', (8,), 3), ('log10', (1000,), 3), ('exp10', (2,), 100), ('cbrt', (27,), 3),
